@@ -167,6 +167,16 @@ var patternsB = []patternB{
 	{"select_select", [][]opB{{{"select", "B"}}, {{"select", "B"}}, {{"dotx", "sB1"}}}, false},
 	{"select_short", [][]opB{{{"select", "B:1000"}}, {{"select", "B:1000"}}, {{"select", "B:1000"}}}, false},
 	{"select_short_seq", [][]opB{{{"select", "B:1000"}, {"select", "B:1000"}, {"select", "B:1000"}}, {{"dotx", "tC"}}}, false},
+	// a shared output cited at different input positions (sB1: [r1]; sB3: [s0, r1]; sB4: [s1, s0])
+	{"same_output_other_position", [][]opB{{{"dotx", "sB1"}}, {{"dotx", "sB3"}}}, false},
+	{"same_output_other_position3", [][]opB{{{"dotx", "sB3"}}, {{"dotx", "sB4"}}, {{"dotx", "sB1"}}}, false},
+	// a submission refused half-way through taking its locks, then the transactions that need
+	// exactly the keys it does not share with the winner (judged again after quiescence)
+	{"refused_then_needed", [][]opB{{{"dotx", "wB"}}, {{"dotx", "wCk0"}, {"dotx", "tC"}, {"dotx", "wD0"}}}, false},
+	{"refused_then_needed_lock", [][]opB{{{"dotx", "wB"}}, {{"dotx", "wCk0"}, {"dotx", "tC"}, {"dotx", "wD0"}}}, true},
+	// locking selections by size
+	{"selectsize_selectsize", [][]opB{{{"selectsize", "B"}}, {{"selectsize", "B"}}, {{"selectsize", "B"}}}, false},
+	{"selectsize_select", [][]opB{{{"selectsize", "B"}}, {{"select", "B:1200"}}, {{"dotx", "sB4"}}}, false},
 	{"play_vs_dotx", [][]opB{{{"play", "k2"}}, {{"dotx", "wB"}}, {{"dotx", "wC"}}}, false},
 	{"lock_rrww3", [][]opB{{{"dotx", "rD"}, {"dotx", "wC"}}, {{"dotx", "rA"}}, {{"dotx", "wB"}}}, true},
 	{"lock_rrww4", [][]opB{{{"dotx", "rD"}}, {{"dotx", "rA"}}, {{"dotx", "wB"}}, {{"dotx", "wC"}}}, true},
@@ -263,6 +273,17 @@ func newB(p patternB, withKV bool) func() vsched.Instance {
 						hm.Lock()
 						res.selected = append(res.selected, keys)
 						hm.Unlock()
+					case "selectsize":
+						ins, _, _, err := inst.W.State.SelectUtxosBySize(world.Addr(op.Arg), true, false)
+						var keys []string
+						if err == nil {
+							for _, in := range ins {
+								keys = append(keys, fmt.Sprintf("%s_%d", u.Names.Of(in.RefTxid), in.RefOffset))
+							}
+						}
+						hm.Lock()
+						res.selected = append(res.selected, keys)
+						hm.Unlock()
 					case "play":
 						err := inst.W.State.PlayAndRepost(u.ID(op.Arg), false, false)
 						hm.Lock()
@@ -317,7 +338,7 @@ func newB(p patternB, withKV bool) func() vsched.Instance {
 			cached, hit := replicaCache[sig]
 			replicaMu.Unlock()
 			if hit {
-				return append(out, cached...)
+				return append(append(out, cached...), retryRefused(inst, res)...)
 			}
 			var more []string
 			so := &chain.SpendOracle{}
@@ -345,7 +366,7 @@ func newB(p patternB, withKV bool) func() vsched.Instance {
 			replicaMu.Lock()
 			replicaCache[sig] = more
 			replicaMu.Unlock()
-			return append(out, more...)
+			return append(append(out, more...), retryRefused(inst, res)...)
 		}
 		cleanup := func() { inst.Close() }
 		in := vsched.Instance{Bodies: bodies, Check: check, Cleanup: cleanup}
@@ -361,6 +382,42 @@ func newB(p patternB, withKV bool) func() vsched.Instance {
 		}
 		return in
 	}
+}
+
+// retryRefused: once every thread is done, a refused transaction all of whose
+// inputs are current against chain + pool is submitted again, one at a time, and
+// must be admitted (a refusal may come from a collision in flight, it must not
+// outlive it: locks that a refused submission keeps are not in the stores, so
+// this is judged on the live node and never memoised).
+func retryRefused(inst *chain.Inst, res *resultB) []string {
+	var names []string
+	for n := range res.errs {
+		if !strings.HasPrefix(n, "play:") {
+			names = append(names, n)
+		}
+	}
+	sort.Strings(names)
+	var out []string
+	for _, n := range names {
+		so := &chain.SpendOracle{}
+		so.Before(inst, "submit:"+n)
+		tx := inst.U.Tx(n)
+		_, err := inst.W.State.VerifyTx(tx)
+		if err == nil {
+			err = inst.W.State.DoTx(tx)
+		}
+		obs := "ok"
+		if err != nil {
+			obs = "ERR " + err.Error()
+		}
+		so.After(inst, "submit:"+n, obs)
+		for _, v := range so.Check(inst, nil) {
+			if strings.HasPrefix(v.Key, "c03.refused_current") {
+				out = append(out, "c12.refused_without_conflict_after_quiescence: "+v.Summary+" (first refusal: "+res.errs[n]+")")
+			}
+		}
+	}
+	return out
 }
 
 func sha(s string) string {
